@@ -66,10 +66,12 @@ def compile_recover(server_steps: Sequence[Sequence]) -> bytes:
 _UNRESERVED = b"ABCDEFGHIJKLMNOPQRSTUVWXYZabcdefghijklmnopqrstuvwxyz0123456789-._~"
 
 
-def pct_encode(b: bytes, plus_for_space: bool = False) -> bytes:
+def pct_encode(b: bytes, plus_for_space: bool = False, raw: bytes = b"") -> bytes:
+    """Percent-encode everything but the unreserved characters (and the bytes in `raw`, which the sender chooses to
+    leave as they are: RFC 3986 allows ? / : @ ! $ ' ( ) * , ; and, in values, = inside a query component)."""
     out = bytearray()
     for c in b:
-        if c in _UNRESERVED:
+        if c in _UNRESERVED or c in raw:
             out.append(c)
         elif c == 0x20 and plus_for_space:
             out += b"+"
@@ -97,10 +99,13 @@ def pct_decode(b: bytes, plus_is_space: bool = True) -> bytes:
 
 
 def serialize_request(method: bytes, path: bytes, params: Sequence[Tuple[bytes, bytes]],
-                      headers: Sequence[Tuple[bytes, bytes]], body: bytes, plus_for_space: bool = False) -> bytes:
+                      headers: Sequence[Tuple[bytes, bytes]], body: bytes, plus_for_space: bool = False,
+                      raw_safe: bytes = b"") -> bytes:
     target = path
     if params:
-        target += b"?" + b"&".join(pct_encode(k, plus_for_space) + b"=" + pct_encode(v, plus_for_space) for k, v in params)
+        kraw = bytes(c for c in raw_safe if c != 0x3D)
+        target += b"?" + b"&".join(pct_encode(k, plus_for_space, kraw) + b"=" + pct_encode(v, plus_for_space, raw_safe)
+                                   for k, v in params)
     return serialize_raw_request(method, target, headers, body)
 
 
